@@ -1,6 +1,7 @@
 import Nstd.Codec.LemmasUtf8
 import Nstd.Codec.LemmasValid
 import Nstd.Codec.LemmasStr
+import Nstd.Codec.LemmasB64
 import Nstd.Codec.LemmasInt
 /-!
   Property C18 — text codecs and numeric conversions are exact inverses and bounds-safe.
@@ -134,6 +135,12 @@ theorem base64_no_oob (inp : List Nat) : fromBase64 inp ≠ .oob := by
   obtain ⟨r, hr⟩ := fromBase64_ok inp
   rw [hr]; intro h; cases h
 
+/-- full functional specification for ARBITRARY input: `fromBase64` returns `Spec.b64Decode` of its
+    argument - empty when the length is not a multiple of four or a byte outside the alphabet comes
+    before the first `=`, otherwise the complete bytes of the symbols in front of the first `=`
+    (whatever follows that `=` is ignored); never a fault -/
+theorem base64_spec (inp : List Nat) : fromBase64 inp = .ok (Spec.b64Decode inp) := fromBase64_spec inp
+
 /-- the table-index part of `base64_no_oob` on its own: a byte that passes the guard indexes below 123 -/
 theorem base64_index_lt_table (b : Nat) (h : base64GuardRejects b = false) :
     0 ≤ base64Index b ∧ (base64Index b).toNat < base64de.length := by
@@ -185,5 +192,63 @@ theorem int_roundtrip_uint64 (v : Nat) (h : v ≤ 18446744073709551615) : toUInt
 
 example : fromInt (-2147483648) = [45, 50, 49, 52, 55, 52, 56, 51, 54, 52, 56] := by
   simp [fromInt, printf_eq, fmtSigned, decDigits]
+
+/-! ## parsing arbitrary numerals: white space, optional sign, digits (leading zeros allowed), junk -/
+
+/-- `toUInt64` / `toUInt` of `ws ++ ["+"] ++ digits ++ junk` is the value of the digit string whenever it
+    fits the type (any white space prefix, any junk that does not start with a digit) -/
+theorem parse_unsigned (ws sign ds junk : List Nat) (hws : ∀ c ∈ ws, isSpace c = true)
+    (hsign : sign = [] ∨ sign = [43]) (hds : ∀ d ∈ ds, isDigit d = true) (hne : ds ≠ [])
+    (hj : ∀ c tl, junk = c :: tl → isDigit c = false) :
+    (Spec.decimalValue ds ≤ 18446744073709551615 →
+      toUInt64 (ws ++ (sign ++ (ds ++ junk))) = Spec.decimalValue ds) ∧
+    (Spec.decimalValue ds ≤ 4294967295 →
+      toUInt (ws ++ (sign ++ (ds ++ junk))) = Spec.decimalValue ds) := by
+  have hm := strtoMag_numeral ws sign ds junk hws (by rcases hsign with h | h <;> simp [h]) hds hne hj
+  have hneg : decide (sign = [45]) = false := by rcases hsign with h | h <;> simp [h]
+  rw [hneg] at hm
+  constructor
+  · intro h
+    unfold toUInt64 strtoull
+    rw [hm]
+    simp only [Bool.false_eq_true, if_false]
+    rw [if_neg (by omega)]
+  · intro h
+    unfold toUInt strtoul strtoull
+    rw [hm]
+    simp only [Bool.false_eq_true, if_false]
+    rw [if_neg (by omega)]
+    omega
+
+/-- `toInt64` / `toInt` of `ws ++ [sign] ++ digits ++ junk` is the signed value of the numeral whenever
+    it fits the type -/
+theorem parse_signed (ws sign ds junk : List Nat) (hws : ∀ c ∈ ws, isSpace c = true)
+    (hsign : sign = [] ∨ sign = [43] ∨ sign = [45]) (hds : ∀ d ∈ ds, isDigit d = true) (hne : ds ≠ [])
+    (hj : ∀ c tl, junk = c :: tl → isDigit c = false) (v : Int)
+    (hv : v = if sign = [45] then -(Spec.decimalValue ds : Int) else (Spec.decimalValue ds : Int)) :
+    (-9223372036854775808 ≤ v ∧ v ≤ 9223372036854775807 → toInt64 (ws ++ (sign ++ (ds ++ junk))) = v) ∧
+    (-2147483648 ≤ v ∧ v ≤ 2147483647 → toInt (ws ++ (sign ++ (ds ++ junk))) = v) := by
+  have hm := strtoMag_numeral ws sign ds junk hws hsign hds hne hj
+  have key : -9223372036854775808 ≤ v ∧ v ≤ 9223372036854775807 →
+      strtoll (ws ++ (sign ++ (ds ++ junk))) = v := by
+    intro h
+    unfold strtoll
+    rw [hm]
+    by_cases hs : sign = [45]
+    · simp only [hs, decide_true, if_true] at hv ⊢
+      rw [if_neg (by omega)]; omega
+    · simp only [hs, decide_false, if_false, Bool.false_eq_true] at hv ⊢
+      rw [if_neg (by omega)]; omega
+  constructor
+  · intro h
+    unfold toInt64 atoll
+    exact key h
+  · intro h
+    unfold toInt atoi strtol
+    rw [key ⟨by omega, by omega⟩]
+    unfold wrapInt32
+    omega
+
+example : toInt64 [32, 9, 45, 48, 48, 52, 50, 120] = -42 := by decide      -- " \t-0042x"
 
 end Nstd.Codec
